@@ -137,3 +137,55 @@ def acc_gates(agg, names, reasons):
     for n in names:
         if agg['counts'].get('acc:' + n, 0) == 0:
             reasons.append('accessor contract %s was never evaluated' % n)
+
+
+def interleaved(s, i, timing='timed'):
+    """Two running orders alive at once that share story IDs at different
+    offsets: list A's stories, list B's, THEN read A's story values - state
+    shared between instances (class attributes, mutable defaults) shows here."""
+    from .. import gen, build as B
+    from ..contracts import ref_story_table, _child, feq
+    rng = s.rng('interleaved', i)
+    n = rng.randint(2, 6)
+    names = ['Q%d' % k for k in range(n)]
+
+    def make(order):
+        stories = []
+        for nm in order:
+            t = gen.rand_timing(rng, timing)
+            stories.append(B.story(nm, 'slug', [B.item(nm + '.i', 'x')], timing_el=t))
+        return B.ro_doc('RO', 1, stories, ed_start=rng.choice(['2020-01-01T12:30:00', '2021-06-01T08:00:05']))
+    ta = make(names)
+    tb = make(rng.sample(names, n) + ['QX'])
+    ra, rb = s.load(ta), s.load(tb)
+    sa = ra.stories
+    sb = rb.stories
+    _ = [x.offset for x in sb]
+    sa2 = None
+    if rng.random() < 0.5:
+        sa2 = rb.duration      # anything that lists B again
+    try:
+        got = [(x.id, x.offset, x.start_time, x.end_time, x.duration) for x in sa]
+    except Exception as e:
+        got = e
+    EV.drain_acc()
+    tab = ref_story_table(_child(ET.fromstring(ta), 'roCreate'))
+    s.evaluations += 1
+    s.note_sig(('interleaved', n, tab['all_timed'], timing))
+    s.hist['interleaved_cases'] += 1
+    if isinstance(got, Exception):
+        if s.prop == 'C15':
+            s.custom_violation('accessor-raised', {'accessor': 'Story.* (held across another listing)',
+                                                   'exc': type(got).__name__}, {'type': 'two-ros', 'a': ta, 'b': tb},
+                               msg_kind='Story.offset', status='interleaved')
+        return
+    if not tab['all_timed'] or not tab['unique']:
+        return
+    for (gid, goff, gst, gen_, gdur), row in zip(got, tab['rows']):
+        ok = gid == row['id'] and feq(goff, row['offset']) and gst == row['start'] and gen_ == row['end'] and feq(gdur, row['duration'])
+        if not ok and s.prop in ('C15', 'C16'):
+            s.custom_violation('story-values-change-when-another-running-order-is-listed',
+                               {'story': gid, 'got': repr((goff, gst, gen_))[:200],
+                                'want': repr((row['offset'], row['start'], row['end']))[:200]},
+                               {'type': 'two-ros', 'a': ta, 'b': tb}, msg_kind='Story.offset@ro', status='interleaved')
+            return
